@@ -3,6 +3,7 @@ package checks
 import (
 	"fmt"
 	"go/ast"
+	"go/constant"
 	"go/token"
 	"go/types"
 
@@ -146,6 +147,100 @@ func checkRecurrences(c *core.Ctx) {
 		}
 	}
 	checkTrigammaPaths(c, p, d)
+	checkBaseInterval(c, p)
+}
+
+// checkBaseInterval: digamma_imp hands its argument to the rational approximation on [1, 2] only after both shift loops:
+// the call is preceded, in its block, by a loop that runs while x > 2 and a loop that runs while x < 1, and nothing
+// assigns x in between. (A loop turned into a single `if` leaves arguments that need two steps outside the interval.)
+func checkBaseInterval(c *core.Ctx, p *packages.Package) {
+	cons := "special.digamma_imp"
+	fd := findFuncDecl(p, "digamma_imp")
+	if fd == nil {
+		return
+	}
+	info := p.TypesInfo
+	found := false
+	ast.Inspect(fd.Body, func(n ast.Node) bool {
+		blk, ok := n.(*ast.BlockStmt)
+		if !ok {
+			return true
+		}
+		for idx, st := range blk.List {
+			var call *ast.CallExpr
+			ast.Inspect(st, func(m ast.Node) bool {
+				if ce, ok := m.(*ast.CallExpr); ok {
+					if fn := core.Callee(info, ce); fn != nil && fn.Name() == "digamma_imp_1_2" {
+						call = ce
+					}
+				}
+				return true
+			})
+			if call == nil || len(call.Args) != 1 {
+				continue
+			}
+			if _, isBlock := st.(*ast.BlockStmt); isBlock {
+				continue
+			}
+			if _, isIf := st.(*ast.IfStmt); isIf {
+				continue // the call sits deeper: handled when that block is visited
+			}
+			found = true
+			arg := types.ExprString(call.Args[0])
+			above, below := false, false
+			for _, prev := range blk.List[:idx] {
+				switch v := prev.(type) {
+				case *ast.ForStmt:
+					if v.Init != nil || v.Post != nil || v.Cond == nil {
+						continue
+					}
+					be, ok := ast.Unparen(v.Cond).(*ast.BinaryExpr)
+					if !ok {
+						continue
+					}
+					l, r := types.ExprString(be.X), types.ExprString(be.Y)
+					val := func(e ast.Expr) (float64, bool) {
+						tv, ok := info.Types[e]
+						if !ok || tv.Value == nil {
+							return 0, false
+						}
+						f, _ := constant.Float64Val(constant.ToFloat(tv.Value))
+						return f, true
+					}
+					switch {
+					case l == arg && (be.Op == token.GTR || be.Op == token.GEQ):
+						if f, ok := val(be.Y); ok && f <= 2 {
+							above = true
+						}
+					case r == arg && (be.Op == token.LSS || be.Op == token.LEQ):
+						if f, ok := val(be.X); ok && f <= 2 {
+							above = true
+						}
+					case l == arg && (be.Op == token.LSS || be.Op == token.LEQ):
+						if f, ok := val(be.Y); ok && f >= 1 {
+							below = true
+						}
+					case r == arg && (be.Op == token.GTR || be.Op == token.GEQ):
+						if f, ok := val(be.X); ok && f >= 1 {
+							below = true
+						}
+					}
+				case *ast.AssignStmt:
+					for _, lh := range v.Lhs {
+						if types.ExprString(lh) == arg {
+							above, below = false, false
+						}
+					}
+				}
+			}
+			c.Check(above && below, "C13.R8", cons, "argument reduced to [1, 2] before the base-interval routine", call.Pos(),
+				"digamma_imp_1_2("+arg+") is not preceded by a loop that shifts "+arg+" down while it exceeds 2 and a loop that shifts it up while it is below 1: arguments that need more than one step reach the rational approximation outside its interval")
+		}
+		return true
+	})
+	if !found {
+		c.Unknown("C13.R8", cons, "argument reduced to [1, 2] before the base-interval routine", fd.Pos(), "the call of digamma_imp_1_2 was not found")
+	}
 }
 
 func checkTrigammaPaths(c *core.Ctx, p *packages.Package, d *declIndex) {
